@@ -349,8 +349,8 @@ def evaluate_expression(expr, options=None, locals_=None, builtins=True):
                         left_value = float(left_value)
                     result = left_value ** right_value
                     return result if not isinstance(result, complex) else None
-        except (ArithmeticError, ValueError):
-            # Division by zero, numeric overflow, etc.
+        except (ArithmeticError, ValueError, RecursionError):
+            # Division by zero, numeric overflow, comparison of values that contain themselves, etc.
             pass
 
         # Invalid operation values
